@@ -124,8 +124,12 @@ func (t *Target) BuildRedirectURL(requestURL *url.URL) {
 			t.RedirectURL.RawQuery = requestURL.RawQuery
 		}
 	}
-	if t.RedirectURL.Path == "" {
-		t.RedirectURL.Path = "/"
+	// the path of the redirect url is absolute
+	if !strings.HasPrefix(t.RedirectURL.Path, "/") {
+		t.RedirectURL.Path = "/" + t.RedirectURL.Path
+		if t.RedirectURL.RawPath != "" {
+			t.RedirectURL.RawPath = "/" + t.RedirectURL.RawPath
+		}
 	}
 	if strings.Contains(t.RedirectURL.Host, "$host") {
 		t.RedirectURL.Host = strings.Replace(t.RedirectURL.Host, "$host", requestURL.Host, 1)
